@@ -25,7 +25,10 @@ Data(doc, t) == IF t \in DOMAIN doc.reldata THEN AsSet(doc.reldata[t]) ELSE {}
 
 -----------------------------------------------------------------------------
 (* C04: what one resource object must expose                                *)
-ExpAttrs(doc, res) == AttrsOf(res.type) \cap Sel(doc, res.type)
+\* a member of a mixed collection may be a soft resource on a type of its own: the schema type's
+\* name and one more attribute, "ex" (res.extra)
+AttrsOfRes(res) == AttrsOf(res.type) \cup (IF res.extra THEN {"ex"} ELSE {})
+ExpAttrs(doc, res) == AttrsOfRes(res) \cap Sel(doc, res.type)
 ExpRels(doc, res)  == RelsOf(res.type) \cap Sel(doc, res.type)
 ExpData(doc, res, f) ==
     IF f \notin Data(doc, res.type) THEN "absent"
@@ -96,7 +99,10 @@ ResBack(doc, res, b, full) ==
                      IF ToOne(res.type, f) THEN b.vals[f].ids = res.vals[f].ids
                      ELSE AsSet(b.vals[f].ids) = AsSet(res.vals[f].ids)
 
+\* C02 speaks of resources of the schema's types: a document with a wider member is not judged
+HasWider(doc) == \E i \in 1..Len(doc.primary) : doc.primary[i].extra
 RoundTrip(doc, back) ==
+  HasWider(doc) \/
     /\ back.ok
     /\ back.kind = BackKind(doc)
     /\ doc.kind = "errors" => back.errors_same /\ back.kind = "errors" /\ Len(back.primary) = 0
